@@ -23,7 +23,7 @@ ASSUMPTIONS = [
     "Extra columns are legal in SAM (tags) and VCF (samples), so more/double-column violations are not injected there.",
 ]
 REQUIRED_CLASSES = ["offending-line-empty", "non-numeric-in-all-dot-column", "malformed-float", "sign-only", "bad-marker", "bad-plus", "non-numeric", "bad-strand", "fewer-columns", "more-columns", "double-columns",
-                    "lazy", "eager", "gzip", "offender-not-in-first-chunk", "format-exception", "malformed-integer-among-signed-ones"]
+                    "lazy", "eager", "gzip", "offender-not-in-first-chunk", "format-exception", "malformed-integer-among-signed-ones", "malformed-float-among-scientific-ones"]
 BOUNDS = {"quick": "core: fasta2, fastq, bed3, bed6 with 2..3 records of width 1..2, all p, all k, 4 flag combinations; 60 sampled files for each of 9 formats",
           "thorough": "core: 2..4 records widths {1,2,5}; 1200 sampled files per format"}
 BUDGET_S = {"quick": 200, "thorough": 1500}
@@ -34,7 +34,7 @@ STRAND_COLS = {"bed6": 5, "narrowpeak": 5, "gtf": 6}
 BAD_NUM = ["x", "12a", "a12", "1x2", "1P", "P", "1.5x", "7Q", "3 ", "-", "+", "1-", "--1", "1-2"]
 # float-typed columns and texts that are not decimal or scientific numbers (a lone sign, two decimal points, an exponent without digits)
 FLOAT_COLS = {"bdg": [3], "narrowpeak": [6, 7, 8]}
-BAD_FLOAT = ["x", "1.5x", "-", "1.2.3", "1..5", "--1.0", "1.-5", "1e-", "1.0e+", "-e1", "1,5"]
+BAD_FLOAT = ["x", "1.5x", "-", "1.2.3", "1..5", "--1.0", "1.-5", "1e-", "1.0e+", "-e1", "1,5", "1.5e-x", "2ex", "3.0e+1x", "1e5x"]
 BAD_STRAND = ["x", "K", "M", "N", "*", "p"]
 LINES_PER = {"fasta2": 2, "fastq": 4}
 COLUMN_COUNT_KINDS = ("fewer-columns", "more-columns", "double-columns")
@@ -144,6 +144,8 @@ def classify(case):
         cl.append("non-numeric-in-all-dot-column")
     if v.get("signed_neighbours"):
         cl.append("malformed-integer-among-signed-ones")
+    if v.get("scientific_neighbours"):
+        cl.append("malformed-float-among-scientific-ones")
     if v.get("float_column"):
         cl.append("malformed-float")
     if v.get("blank"):
@@ -241,6 +243,12 @@ def sampled_case(draw, fmt, max_records, W):
         v.update(col=4 if all_dot else draw(st.sampled_from(NUMERIC_COLS[fmt])), text=draw(st.sampled_from(BAD_NUM)))
         if fmt in FLOAT_COLS and not all_dot and draw(st.booleans()):
             v.update(col=draw(st.sampled_from(FLOAT_COLS[fmt])), text=draw(st.sampled_from(BAD_FLOAT)), float_column=True)
+            if draw(st.booleans()):
+                # the values around the offending one in scientific notation (the column is then parsed in two groups, decimal and scientific)
+                for r in case["records"]:
+                    if draw(st.integers(0, 2)):
+                        r[v["col"]] = draw(st.sampled_from(["1e-5", "2.5e3", "1.0e+2", "7e0", "-3.25e-2"]))
+                v["scientific_neighbours"] = True
     elif kind == "bad-strand":
         v.update(col=STRAND_COLS[fmt], text=draw(st.sampled_from(BAD_STRAND)))
     elif kind == "bad-marker":
